@@ -6,7 +6,7 @@ import xml.etree.ElementTree as ET
 repo = sys.argv[1] if len(sys.argv) > 1 else "/repo"
 b = json.load(open("/root/.vp/BASELINE.json"))
 fd, path = tempfile.mkstemp(suffix=".xml"); os.close(fd)
-cmd = f"cd {repo} && /venv/bin/python -m pytest -ra -q -p no:cacheprovider --timeout=900 --continue-on-collection-errors --junitxml={path}"
+cmd = f"cd {repo} && /venv/bin/python -m pytest -ra -q -p no:cacheprovider --timeout=900 --continue-on-collection-errors --ignore=_seed --junitxml={path}"
 env = dict(os.environ); env.pop("XGI_VERIF", None)
 p = subprocess.run(cmd, shell=True, capture_output=True, text=True, env=env)
 passed = set()
